@@ -13,7 +13,27 @@ A case (or group element) may carry "host": the time zone of the machine the sch
 "MSK-3" / "EST5EDT" / "IST-5:30", or an IANA name resolved by the C library; absent / None = "UTC", the harness
 environment).  It is installed with os.environ["TZ"] + time.tzset() before the real code is called, and the controlled
 clock answers exactly like the real datetime class on such a host: now(tz) / utcnow() report the instant, now() WITHOUT
-tz the naive local wall clock of the host zone."""
+tz the naive local wall clock of the host zone.
+
+A group may carry "objs": "once": a ScheduledTask is then built ONCE per distinct (expression / CronSpec, offset) of the
+group and that one object is evaluated at every instant the group names it (what a schedule source that keeps its
+objects does); absent / "rebuilt" = a fresh object per evaluation (what LabelScheduleSource does).
+
+A case {"labelsrc": {...}} declares the schedules where a deployment declares them - as `schedule` labels of tasks
+registered with a real broker - and lets the REAL LabelScheduleSource list them, poll after poll, on one source object:
+  "tasks": [{"name", "decl": "register" | "decorator", "extra": {other task labels},
+             "schedule": [{"cron", "off", "offkey", "args" (absent = key absent), "kwargs", "labels", "same": k}
+                          | {"time": us} | {"junk": ...}]}],
+  "polls": [{"now": us, "relist": bool, "newsrc": bool, "via": "source" | "run.get_schedules" | "get_all_schedules",
+             "post_send": bool}],
+  "src_first": the source object is constructed before the tasks are registered, "host".
+At every poll the clock is set, the source is listed (or, "relist": false, the objects of the previous listing are kept:
+built once, evaluated at many instants) and EVERY listed ScheduledTask is handed to the real get_task_delay, in the
+order of the listing, as run_scheduler_loop does.  "post_send": the time schedules found due are passed to
+source.post_send() afterwards (the loop's on_ready does that; the source then pops the label, so later labels move up).
+Observation: {"polls": [{"listed": [{task_name, cron, offtype, off_us | off_zone, args, kwargs, time_us, delay | raised,
+"same_obj_as_prev": the object at this position is the one evaluated at the previous poll}], ...}]}."""
+import asyncio
 import datetime as dt
 import os
 import time
@@ -23,7 +43,10 @@ import pytz
 
 import taskiq.cli.scheduler.run as run
 import patchall
+from taskiq import InMemoryBroker
+from taskiq.schedule_sources.label_based import LabelScheduleSource
 from taskiq.scheduler.scheduled_task import CronSpec, ScheduledTask
+from taskiq.scheduler.scheduler import TaskiqScheduler
 
 EP = dt.datetime(1970, 1, 1, tzinfo=dt.timezone.utc)
 NOW = [EP]
@@ -70,39 +93,58 @@ def td_us(d):
 
 
 def run_case(c, opts):
+    if "labelsrc" in c:
+        return run_labelsrc(c["labelsrc"])
     if "group" in c:
-        return {"group": [guarded(e) for e in c["group"]]}
+        built = {} if c.get("objs") == "once" else None
+        return {"group": [guarded(e, built) for e in c["group"]]}
     return run_one(c)
 
 
-def guarded(e):
+def guarded(e, built=None):
     try:
-        return run_one(e)
+        return run_one(e, built)
     except Exception:  # a crash of one element is that element's observation; the rest of the group still runs
         return {"_crash": traceback.format_exc()[-2000:]}
 
 
-def run_one(c):
-    NOW[0] = EP + dt.timedelta(microseconds=c["now"])
-    set_host(c.get("host"))
-    off = c["off"]
+def offset_value(off):
     if off is None:
-        o = None
-    elif off["kind"] == "td":
-        o = dt.timedelta(microseconds=off["us"])
-    elif off["kind"] == "zone":
-        o = off["zone"]
-    else:
-        raise ValueError(off)
+        return None
+    if off["kind"] == "td":
+        return dt.timedelta(microseconds=off["us"])
+    if off["kind"] == "zone":
+        return off["zone"]
+    raise ValueError(off)
+
+
+def build_task(c):
+    o = offset_value(c["off"])
     if c.get("spec") is not None:
         mi, h, dom, mon, dow = c["spec"]
         spec = CronSpec(minutes=mi, hours=h, days=dom, months=mon, weekdays=dow, offset=o)
         cron, o = spec.to_cron(), spec.offset
     else:
         cron = c["cron"]
-    t = ScheduledTask(task_name="t", labels={}, args=[], kwargs={}, cron=cron, cron_offset=o)
+    return ScheduledTask(task_name="t", labels={}, args=[], kwargs={}, cron=cron, cron_offset=o)
+
+
+def run_one(c, built=None):
+    NOW[0] = EP + dt.timedelta(microseconds=c["now"])
+    set_host(c.get("host"))
+    if built is None:
+        t = build_task(c)
+    else:   # built once per distinct schedule of the group, evaluated at every instant that names it
+        key = repr((c.get("cron"), c.get("spec"), c["off"]))
+        t = built.get(key)
+        if t is None:
+            t = built[key] = build_task(c)
+    return evaluate(t, bool(c.get("host")))
+
+
+def evaluate(t, with_host=False):
     obs = {"cron": t.cron, "offtype": type(t.cron_offset).__name__}
-    if c.get("host"):   # evidence only: what the C library makes of the host zone at this instant
+    if with_host:   # evidence only: what the C library makes of the host zone at this instant
         obs["host_off_us"] = td_us(NOW[0].astimezone().utcoffset())
         obs["local_now"] = VDT.now().isoformat()
     if isinstance(t.cron_offset, dt.timedelta):
@@ -128,3 +170,105 @@ def run_one(c):
         obs["delay"] = repr(r)
         obs["badtype"] = True
     return obs
+
+
+# --------------------------------------------------------------------------- schedules declared as task labels
+LOOP = [None]
+
+
+def aw(coro):
+    if LOOP[0] is None:
+        LOOP[0] = asyncio.new_event_loop()
+    return LOOP[0].run_until_complete(coro)
+
+
+def _body(*a, **k):
+    return None
+
+
+def label_dicts(labels):
+    out = []
+    for l in labels:
+        if l.get("same") is not None:      # the very same dict object listed twice
+            out.append(out[l["same"]])
+            continue
+        d = {}
+        if "cron" in l:
+            d["cron"] = l["cron"]
+            if l["off"] is not None or l.get("offkey"):
+                d["cron_offset"] = offset_value(l["off"])
+        if "time" in l:
+            d["time"] = EP + dt.timedelta(microseconds=l["time"])
+        for k in ("args", "kwargs", "labels", "junk"):
+            if k in l:
+                d[k] = l[k]
+        out.append(d)
+    return out
+
+
+def jsonable(x):
+    try:
+        import json
+        return json.loads(json.dumps(x))
+    except Exception:
+        return repr(x)
+
+
+def run_labelsrc(L):
+    set_host(L.get("host"))
+    NOW[0] = EP + dt.timedelta(microseconds=L["polls"][0]["now"])
+    broker = InMemoryBroker()
+    src = LabelScheduleSource(broker) if L.get("src_first") else None
+    for t in L["tasks"]:
+        dicts = label_dicts(t["schedule"])
+        extra = dict(t.get("extra") or {})
+        if t.get("decl") == "decorator":
+            broker.task(task_name=t["name"], schedule=dicts, **extra)(_body)
+        else:
+            broker.register_task(_body, task_name=t["name"], schedule=dicts, **extra)
+    if src is None:
+        src = LabelScheduleSource(broker)
+    scheduler = TaskiqScheduler(broker, [src])
+    listed, prev, out = None, [], []
+    for p in L["polls"]:
+        NOW[0] = EP + dt.timedelta(microseconds=p["now"])
+        po = {}
+        try:
+            if p.get("newsrc"):
+                src = LabelScheduleSource(broker)
+                scheduler = TaskiqScheduler(broker, [src])
+            relisted = listed is None or p.get("relist", True)
+            if relisted:
+                via = p.get("via") or "source"
+                if via == "get_all_schedules":     # what run_scheduler_loop calls
+                    listed = list(aw(run.get_all_schedules(scheduler))[src])
+                elif via == "run.get_schedules":
+                    listed = list(aw(run.get_schedules(src)))
+                else:
+                    listed = list(aw(src.get_schedules()))
+            po["relisted"] = bool(relisted)
+            obs = []
+            for k, t in enumerate(listed):
+                o = evaluate(t)
+                o["task_name"] = t.task_name
+                o["args"], o["kwargs"] = jsonable(t.args), jsonable(t.kwargs)
+                if t.time is not None:
+                    o["time_us"] = td_us((t.time if t.time.tzinfo is not None else t.time.replace(tzinfo=dt.timezone.utc)) - EP)
+                o["same_obj_as_prev"] = k < len(prev) and prev[k] is t
+                obs.append(o)
+            po["listed"] = obs
+            if p.get("post_send"):   # what on_ready does after a send: the source forgets a time label that was sent
+                for t, o in zip(listed, obs):
+                    if t.cron is None and o.get("delay") is not None and "raised" not in o:
+                        r = src.post_send(t)
+                        if asyncio.iscoroutine(r):
+                            aw(r)
+            prev = list(listed)
+        except Exception:
+            po["_crash"] = traceback.format_exc()[-2000:]
+        out.append(po)
+    if L.get("host"):
+        hoff = td_us(NOW[0].astimezone().utcoffset())
+    else:
+        hoff = None
+    return {"polls": out, "host_off_us": hoff}
